@@ -542,7 +542,18 @@ fn exec_batch(w: &mut World, batch: &[Op], salt: u64, ctx: &mut CaseCtx) -> Resu
     for i in 0..DOCS.len() {
         let want = before[i] + expect_pubs[i];
         let uri = uris[i].clone();
-        w.s.pump_until(T, "expected publications of the batch", |s| s.publications_for(&uri) >= want)?;
+        match w.s.pump_until(T, "expected publications of the batch", |s| s.publications_for(&uri) >= want) {
+            Ok(()) => {}
+            // No handler is waiting for an answer of ours and the server answers later requests:
+            // it has said its last word. Whether that word is right is for the oracle below.
+            Err(LspError::Timeout(t)) => {
+                if !idle_barrier(&mut w.s)? {
+                    return Err(LspError::Timeout(t));
+                }
+                ctx.class("expected_publication_missing_on_an_idle_server");
+            }
+            Err(e) => return Err(e),
+        }
     }
     w.s.settle(Duration::from_millis(30))?;
     w.s.manual = true;
@@ -637,7 +648,17 @@ fn exec_config_with_closes(w: &mut World, batch: &[Op], salt: u64, ctx: &mut Cas
     let mut guard = 0;
     while !done(&w.s) && guard < 16 {
         guard += 1;
-        w.s.pump_until(T, "configuration request of the refresh loop", |s| !s.pending_config.is_empty() || done(s))?;
+        match w.s.pump_until(T, "configuration request of the refresh loop", |s| !s.pending_config.is_empty() || done(s)) {
+            Ok(()) => {}
+            Err(LspError::Timeout(t)) => {
+                if !idle_barrier(&mut w.s)? {
+                    return Err(LspError::Timeout(t));
+                }
+                ctx.class("expected_publication_missing_on_an_idle_server");
+                break;
+            }
+            Err(e) => return Err(e),
+        }
         if w.s.pending_config.is_empty() {
             break;
         }
@@ -661,6 +682,24 @@ fn exec_config_with_closes(w: &mut World, batch: &[Op], salt: u64, ctx: &mut Cas
     }
     ctx.class("configuration_change_racing_with_close");
     check_publications(w, &uris)
+}
+
+/// After a wait for a publication timed out: is the server idle? True when no handler waits for a
+/// configuration answer and two further requests are answered, 2.5 s apart.
+fn idle_barrier(s: &mut Server) -> Result<bool, LspError> {
+    for _ in 0..2 {
+        if !s.pending_config.is_empty() {
+            return Ok(false);
+        }
+        let id = s.request("workspace/executeCommand", json!({"command": "HarperRecordLint", "arguments": ["{\"LintConfigUpdate\":{}}"]}))?;
+        match s.wait_response(id, T) {
+            Ok(_) => {}
+            Err(LspError::Timeout(_)) => return Ok(false),
+            Err(e) => return Err(e),
+        }
+        s.settle(Duration::from_millis(2500))?;
+    }
+    Ok(s.pending_config.is_empty())
 }
 
 fn check_publications(w: &mut World, uris: &[String]) -> Result<Result<(), String>, LspError> {
